@@ -17,7 +17,7 @@ TRUSTED = [
     "value with overflow above i64::MAX); tied by hx_asi --mode lit; float literals are not modelled",
     "the PARSER half of the property (what the parser makes of the token stream: Grouping nodes, `;;`, statement "
     "boundaries) carries one theorem only -- the is_expression_start list, regenerated from atom.rs, covers every kind "
-    "primary()/unary() accept except `~` -- the rest is explored by the variant-vs-original runs; value_block_yields in "
+    "primary()/unary() accept -- the rest is explored by the variant-vs-original runs; value_block_yields in "
     "Model/ExprStart.v is a hand reading of block_expression, tied by the if-expression variants",
     "run behaviour is compared as (outcome class, captured output, final value) at -O0 and -O2 under an instruction budget; "
     "for rejected programs only the fact of rejection is compared (messages contain positions)",
@@ -25,7 +25,7 @@ TRUSTED = [
 IMPORTS = "From Aelys Require Import Extracted.AsiTokens Model.Asi Model.Literal Model.AsiObs."
 
 KNOWN_CLASS = {
-    "tilde-at-block-value": "the value of an if-expression branch starts with the prefix operator `~`, which is_expression_start does not list (KF-C15-3)",   # repaired root causes the corpus pairs guard against (regression cases)
+    "tilde-at-block-value": "the value of an if-expression branch starts with the prefix operator `~` (KF-C15-3, repaired by 3fa327d)",   # repaired root causes the corpus pairs guard against (regression cases)
     "comment-line-before-else": "a `//` comment on a line of its own between `}` and an `else` that starts the next line",
     "newline-separator-inside-parens": "newline-separated statements of a block that sits inside ( or [ (lambda body passed as an argument or wrapped in parentheses)",
 }
@@ -126,9 +126,8 @@ def run(ctx):
     ctx.cov["trusted_base"] = TRUSTED
     ctx.assumptions = ["the piece-level model of the lexer is the code: contract tie on every run",
                        "the theorems cover the lexer's decisions and integer literal values; the parser's use of the stream is explored, not proved"]
-    # the two former refutations were repaired in /repo (33a78fa, d14529d) and are theorems now; one is open:
-    ctx.cov["refuted_lemmas"] = ["expression_start_complete for `~` (witness: `if c { ~x } else { y }` yields null, "
-                                 "`if c { (~x) } else { y }` the value) -> C15_tilde_value_block_refuted"]
+    # all three former refutations were repaired in /repo (33a78fa, d14529d, 3fa327d) and are theorems now
+    ctx.cov["refuted_lemmas"] = []
     proved = ctx.prove("C15", extracted=["AsiTokens", "ParserSets"])
     if ctx.tier == "thorough" and proved:
         ctx.coqchk("C15")
@@ -270,9 +269,7 @@ def run(ctx):
         # the renderer's flags only say where to look
         sig = f"c15:variant-differs:{fam}"
         if fam == "Parens" and int(fl.get("tilde_tail", "0")) > 0:
-            # open finding KF-C15-3, decidable: the ORIGINAL text has a value block whose value starts with `~`
-            # (it yields null there) and the variant differs only by redundant parentheses
-            sig = "c15:tilde-at-block-value:generated"
+            sig += ":tilde-at-block-value"      # hint only: KF-C15-3 is repaired (3fa327d), a recurrence is a violation
         elif fam == "Comment" and fl["comment_before_else"] == "1" and cb != "compile-error" and cv == "compile-error":
             sig += ":comment-line-before-else"
         elif (fam == "Semi" and bsep > 0 and cb == "compile-error" and cv != "compile-error") or \
